@@ -314,10 +314,16 @@ def part_file_big(ctx):
         file_roundtrip(b' '.join(lines))
         ctx.stats.case(b'inc' + b''.join(lines), True, {'utf8_lookalike_lines': show(b' '.join(lines), 60)} if k % 60 == 0 else None,
                        ['file_utf8_lookalike', 'read_through_include'])
+    if ctx.shard == 0:
+        # a real section name right after a bare CR is still in the middle of a .p8 line (lines end at LF)
+        for name in (b'__gfx__', b'__lua__', b'__map__', b'__label__', b'__sfx__', b'#include x.lua'):
+            file_roundtrip_longstring(b'a\r' + name + b'\nz')
+            file_roundtrip_longstring(b'\x0e\x83\r' + name + b'\n\xff\x10')
+            ctx.stats.case(b'crh' + name, True, {'after_bare_cr': show(name)}, ['file_section_name_after_bare_cr'])
     for k, line in enumerate(HEADER_LIKE):
         if k % ctx.nshards != ctx.shard:
             continue
-        for ctxt in (b'a\n%s\nz', b'\n%s\n'):
+        for ctxt in (b'a\n%s\nz', b'\n%s\n', b'a\r%s\nz'):
             file_roundtrip_longstring(ctxt % line)
         ctx.stats.case(b'hl' + line, True, {'header_like_line': show(line)} if k % 40 == 0 else None, ['file_header_like_line'])
 
